@@ -8,13 +8,23 @@ from harness import common
 from harness.translate import gen as G
 
 PROPERTY = "C17"
-LEAN_MODULES = ["SigpyVerif.Props.C17"]
+LEAN_MODULES = ["SigpyVerif.Props.C17", "SigpyVerif.Props.C17Power", "SigpyVerif.Props.C17Dft"]
 THEOREMS = ["SigpyVerif.C17." + t for t in [
     "normalize_eq", "power_step_unit", "phase_ref", "phase_ref_norm", "espirit_keeps_iff", "crop_dichotomy",
     "gram_symmetric", "gram_psd", "power_monotone", "power_bounded", "espirit_scale", "calib_index_map",
     "calib_index_map_2d", "calib_index_map_3d", "calib_shape_steps",
     "bessel_gram_le", "gram_quadratic_le", "gram_inner_le", "eig_le_one_of_orthonormal_kernels", "eigenvalue_le_one",
     "imgKernel_inner", "tensorPhase_norm_sq", "eig_le_one_espirit",
+    # round 4: theorems about the GENERATED per-voxel steps (Gen/EspiritSteps.lean) and the generated PowerMethod step
+    "csum_eq_sum", "cpow_eq", "pm_wiring", "espirit_defaults", "power_run_succ", "power_run_unit", "espirit_tie_dropped",
+    "output_dropped", "espirit_voxel_output", "gramTerm_eq", "gram_entry_eq",
+    # Props/C17Power.lean: the run, for every iteration count (reuses Props/C14Power.lean)
+    "epw_eq_pw", "isSymm_of_herm", "espirit_pm_step", "espirit_pm_unit", "espirit_pm_estimate_range", "espirit_pm_estimate_mono",
+    "espirit_pm_budget", "gramLin_apply", "gramLin_herm", "gramLin_psd", "espirit_run_eig_unit_interval", "sumSq_eq_norm_sq",
+    "normalize_eq_norm",
+    # Props/C17Dft.lean: the DFT hypotheses discharged (only numpy's SVD contract is left)
+    "dftEntry_norm_sq", "axisPhase_norm_sq_le", "dftPhase_norm_sq_le", "card_offsets", "eig_le_one_espirit_dft",
+    "eigenvalue_le_one_dft", "espirit_run_eig_unit_interval_dft", "axisPhase_fits",
 ]]
 
 TOL_EXACT = 1e-12   # float pipeline vs exact rational model (observed <= 1e-15)
@@ -23,7 +33,9 @@ TOL_HYP = 1e-10     # hypotheses of `eig_le_one_espirit` on the real intermediat
 
 
 def translate(ctx):
-    G.regenerate(ctx, ["Block", "EspiritFormulas"])
+    # EspiritSteps: every arithmetic statement of EspiritCalib.__init__/_output (fail-closed); C14Power: the PowerMethod
+    # step / stopping rule the run theorems iterate; UtilFormulas: the resize shifts inside the DFT phases
+    G.regenerate(ctx, ["Block", "EspiritFormulas", "EspiritSteps", "C14Power", "UtilFormulas"])
 
 
 def fr(x):
@@ -205,6 +217,53 @@ def check_hypotheses(ctx, bad):
                "an eigenvalue of AHA exceeds 1" % bad["hyp"])
 
 
+def check_run_wiring(ctx, bad):
+    """what `powerRun` / `runState` (Model/C17.lean) say about the real object: the PowerMethod iterates the array that
+    `_output` reads (`alg.x is app.mps`), starts from ones, is handed `max_iter`, and after `run()`'s loop the state equals the
+    per-voxel recursion  x <- AHA[q] x / ||AHA[q] x||_2,  max_eig <- ||AHA[q] x||_2  applied max_iter times to every voxel
+    separately (float re-statement of the generated step; 1e-12)."""
+    import sigpy.mri as mr
+    rng = ctx.rng
+    for i in range(4 if ctx.tier == "quick" else 16):
+        d = [1, 2, 2, 3][i % 4]
+        nc = rng.randint(2, 4)
+        ish = [rng.randint(3, 6) for _ in range(d)]
+        cw = rng.randint(2, min(ish))
+        kw = rng.randint(1, min(cw, 3))
+        mi = rng.choice([1, 2, 3, 7])
+        rs = np.random.RandomState(rng.randrange(1 << 30))
+        ksp = rs.randn(nc, *ish) + 1j * rs.randn(nc, *ish)
+        case = dict(kind="run", nc=nc, ish=ish, cw=cw, kw=kw, max_iter=mi)
+        ctx.case(("run", json.dumps(case), i), sample=case if i < 2 else None)
+        ctx.count("run:%dd" % d)
+        try:
+            app = mr.app.EspiritCalib(ksp, calib_width=cw, kernel_width=kw, max_iter=mi, show_pbar=False)
+            fwd = app.alg.A
+            cells = dict(zip(fwd.__code__.co_freevars, [c.cell_contents for c in fwd.__closure__ or ()]))
+            AHA = np.array(cells["AHA"])
+            obs = dict(same_array=bool(app.alg.x is app.mps), start_ones=bool(np.all(app.mps == 1)), max_iter=int(app.alg.max_iter),
+                       shape=list(app.mps.shape))
+            ok = obs["same_array"] and obs["start_ones"] and obs["max_iter"] == mi and obs["shape"] == ish[::-1] + [nc, 1]
+            n = 0
+            while not app.alg.done():
+                app.alg.update()
+                n += 1
+            x = np.ones(ish[::-1] + [nc], dtype=complex)
+            e = None
+            for _ in range(mi):
+                y = np.einsum("...ij,...j->...i", AHA, x)
+                e = np.sqrt(np.sum(np.abs(y) ** 2, axis=-1, keepdims=True))
+                x = y / e
+            obs.update(updates=n, dx=float(np.max(np.abs(app.mps[..., 0] - x))), de=float(np.max(np.abs(np.asarray(app.alg.max_eig)[..., 0] - e))))
+            ok = ok and n == mi and obs["dx"] <= TOL_EXACT and obs["de"] <= TOL_EXACT
+        except Exception as e:  # noqa
+            obs, ok = "err %s %s" % (type(e).__name__, e), False
+        if not ok:
+            bad["run"] += 1
+            ctx.disagree("run-wiring", case, obs, "alg.x is app.mps, starts at ones, max_iter updates, state = per-voxel recursion (1e-12)")
+    ctx.oblige("correspondence:C17.run-wiring", "correspondence", bad["run"] == 0, "%d disagreements" % bad["run"])
+
+
 def correspond(ctx):
     ctx.rule = ("post-processing cases = Gaussian-rational vectors with rational moduli (Pythagorean chains), coils 2-8, "
                 "run through the REAL closures (`normalize` = alg.norm_func, PowerMethod._update, EspiritCalib._output) "
@@ -213,8 +272,8 @@ def correspond(ctx):
     import sigpy as sp
     rng = ctx.rng
     n = 40 if ctx.tier == "quick" else 300
-    app2 = {}
-    bad = {"normalize": 0, "step": 0, "output": 0, "calib": 0, "hyp": 0}
+    app2, prev_step = {}, {}
+    bad = {"normalize": 0, "step": 0, "output": 0, "calib": 0, "hyp": 0, "run": 0}
     lines, meta = [], []
     for _ in range(n):
         nc = rng.randint(2, 8)
@@ -245,6 +304,9 @@ def correspond(ctx):
         m0, _ = pyth_entry(rng)
         if m0 == (0, 0):
             m0 = (Fraction(3), Fraction(-4))
+        if rng.random() < 0.3:          # a very weak (non-zero) first coil: exact in binary floating point
+            sc = Fraction(1, 2 ** rng.choice([20, 40, 50]))
+            m0 = (m0[0] * sc, m0[1] * sc)
         m = [m0] + [(Fraction(rng.randint(-4, 4)), Fraction(rng.randint(-4, 4))) for _ in range(nc - 1)]
         crop = Fraction(rng.randint(0, 8), 8)
         eig = crop if rng.random() < 0.3 else Fraction(rng.randint(0, 9), 8)
@@ -266,9 +328,17 @@ def correspond(ctx):
             elif op == "step":
                 Gn = np.array([[cnum(z) for z in row] for row in extra])
                 x = np.array([cnum(z) for z in v]).reshape(1, nc, 1)
-                alg = sp.alg.PowerMethod(lambda t: Gn @ t, x.copy(), norm_func=app.alg.norm_func, max_iter=1)
+                # a second voxel with its own matrix and vector in the same arrays: the model treats voxels separately
+                Gs, xs_ = [Gn], [x]
+                if nc in prev_step:
+                    Gs.append(prev_step[nc][0])
+                    xs_.append(prev_step[nc][1])
+                prev_step[nc] = (Gn, x)
+                Ga, xa = np.stack(Gs), np.concatenate(xs_)
+                alg = sp.alg.PowerMethod(lambda t: Ga @ t, xa.copy(), norm_func=app.alg.norm_func, max_iter=1)
                 alg.update()
-                impl = np.concatenate([np.asarray(alg.max_eig).ravel(), alg.x.ravel()])
+                impl = np.concatenate([np.asarray(alg.max_eig)[0].ravel(), alg.x[0].ravel()])
+                ctx.count("post:step:voxels%d" % len(Gs))
                 if r.startswith("ok "):
                     e, xs = r[3:].split(" | ")
                     model = np.concatenate([parse_list(e), parse_list(xs)])
@@ -322,12 +392,17 @@ def correspond(ctx):
             ctx.disagree("calib-matrix", dict(kind="calib", nc=nc, ish=ish, cw=cw, kw=kw), impl[:300], r[:300])
     ctx.oblige("correspondence:C17.calib-matrix", "correspondence", bad["calib"] == 0, "%d disagreements" % bad["calib"])
     check_hypotheses(ctx, bad)
+    check_run_wiring(ctx, bad)
     ctx.traces = ctx.evaluations
     ctx.assumptions += [
-        "eig <= 1 is a theorem (eig_le_one_espirit) UNDER the hypotheses that the kept rows of numpy's VH are orthonormal "
-        "and that sp.ifft of the centre-padded kernel is the centred orthonormal DFT (entries of modulus 1/sqrt N); both "
-        "are checked numerically on the real intermediates on every run (1e-10), not proved; that the power iteration's "
-        "estimate is within 1e-6 of <= 1 in floating point, and the recovery of the true maps, are search-oracle only",
+        "eig <= 1 is a theorem (eig_le_one_espirit_dft, espirit_run_eig_unit_interval_dft) under ONE numerical hypothesis: the "
+        "rows of numpy's VH are orthonormal (numpy.linalg.svd contract; checked on the real VH on every run at 1e-10). The "
+        "image-domain kernels are DEFINED as the centred orthonormal inverse DFT of the centre-padded kernels with explicit "
+        "phases (|eps|^2 <= 1/N proved); that sp.ifft(sp.resize(.)) computes this sum is numpy's FFT contract + C05/C09, compared "
+        "with the real AHA on every run (1e-10). Floating point (estimate within 1e-6 of the range) and the recovery of the true "
+        "maps are search-oracle only",
+        "per-voxel reading of the batched arrays (AHA @ x, the keepdims sum over axis -2, y / max_eig by broadcasting): voxOps.divS is "
+        "hand-written; compared with the real closures on two-voxel arrays (step stream) and with the real run loop (run-wiring)",
         "the model's operations are exact (Gaussian rationals with rational moduli); the float pipeline is compared at 1e-12",
         "the SVD and the ifft of the zero-padded kernels are tied by correspondence (eig-hypotheses stream) and C05; the "
         "1-D/2-D/3-D calibration matrix index maps are theorems about the generated loop nests (calib_index_map*), "
@@ -336,6 +411,14 @@ def correspond(ctx):
 
 
 # ---- search oracle on the real app ----------------------------------------------------------------
+NP_INTS = ["int64", "int32", "int16", "intp"]     # signed numpy integer types a caller may hand in for the widths
+WEAK = {"complex128": [1e-9, 1e-10, 1e-11, 1e-12, 1e-13],      # first-coil k-space scale of the `weak0` data (|m0| of that size)
+        "complex64": [1e-4, 1e-5, 1e-6]}
+# per-voxel tolerance of the oracle: 1e-6 for double precision data (observed rounding <= 1e-15), 3e-4 for single
+# precision data (observed rounding of the unchanged code <= 4e-7 on norm / phase / eigenvalue range)
+TOLS = {"complex128": TOL, "complex64": 3e-4}
+
+
 def gen_espirit(rng, budget):
     d = 2 if rng.random() < 0.7 else 3
     nc = rng.randint(2, 8)
@@ -345,10 +428,28 @@ def gen_espirit(rng, budget):
         ish = [rng.randint(4, 7) for _ in range(3)]
     cw = rng.randint(3, min(ish) + (2 if rng.random() < 0.2 else 0))
     kw = rng.randint(2, min(cw, 4 if d == 2 else 3))
-    return dict(kind="invariants", nc=nc, ish=ish, cw=cw, kw=kw, thresh=rng.choice([0.0, 0.02, 0.02, 0.05, 0.2]),
-                crop=rng.choice([0.0, 0.5, 0.8, 0.9, 0.95, 0.99]), max_iter=rng.choice([10, 30, 60]),
-                data=rng.choice(["random", "random", "birdcage", "lowrank"]), seed=rng.randrange(1 << 30),
-                crop_at=rng.randrange(1 << 16) if rng.random() < 0.3 else None)
+    c = dict(kind="invariants", nc=nc, ish=ish, cw=cw, kw=kw, thresh=rng.choice([0.0, 0.02, 0.02, 0.05, 0.2]),
+             crop=rng.choice([0.0, 0.5, 0.8, 0.9, 0.95, 0.99, 1.0]), max_iter=rng.choice([10, 30, 60]),
+             data=rng.choice(["random", "random", "birdcage", "lowrank", "weak0", "null0"]), seed=rng.randrange(1 << 30),
+             crop_at=None)
+    # second pass with the crop threshold set EXACTLY to an attained eigenvalue estimate of the first pass
+    r = rng.random()
+    if r < 0.2:
+        c["crop_at"] = rng.randrange(1 << 16)                            # the estimate of one voxel
+    elif r < 0.4:
+        c["crop_rank"] = rng.choice([0.0, 0.1, 0.25, 0.5, 0.75, 0.9, 1.0])   # an order statistic (0 = min, 1 = max)
+    if rng.random() < 0.2:
+        c["dtype"] = "complex64"
+    if c["data"] == "weak0":
+        c["weak"] = rng.choice(WEAK[c.get("dtype", "complex128")])
+        c["base"] = rng.choice(["random", "birdcage"])
+        c["thresh"] = rng.choice([0.02, 0.05])      # thresh = 0 keeps the kernels that live on the weak coil alone
+        c["crop"] = rng.choice([0.0, 0.5, 0.9])
+    if rng.random() < 0.25:                          # numpy-integer widths (values unchanged)
+        c["wtype"] = rng.choice(NP_INTS)
+    if rng.random() < 0.1:                           # the same app run a second time
+        c["rerun"] = True
+    return c
 
 
 def espirit_data(c):
@@ -357,15 +458,87 @@ def espirit_data(c):
     rs = np.random.RandomState(c["seed"])
     nc, ish = c["nc"], c["ish"]
     axes = list(range(-len(ish), 0))
-    if c["data"] == "random":
-        return rs.randn(nc, *ish) + 1j * rs.randn(nc, *ish), None
-    mps = sim.birdcage_maps([nc] + ish)
-    if c["data"] == "birdcage":
-        img = 1.0
+    kind = c["data"]
+    if kind == "weak0":
+        kind = c["base"]
+    if kind == "random":
+        ksp, mps = rs.randn(nc, *ish) + 1j * rs.randn(nc, *ish), None
     else:
-        g = np.meshgrid(*[np.linspace(-1, 1, s) for s in ish], indexing="ij")
-        img = np.exp(-2 * sum(x ** 2 for x in g)) * np.exp(1j * rs.rand() * g[0])
-    return sp.fft(mps * img, axes=axes), mps
+        mps = sim.birdcage_maps([nc] + ish)
+        if kind == "birdcage":
+            img = 1.0
+        elif kind == "null0":
+            # smooth maps whose FIRST coil changes sign along a line inside the field of view (first-coil null)
+            # (the line lies between two grid columns: no voxel has m0 = 0 exactly, which the property excludes)
+            x = (np.arange(ish[-1]) - (ish[-1] // 2 + 0.5 + rs.randint(0, 2))) / (ish[-1] / 2.0)
+            mps = mps.copy()
+            mps[0] = mps[0] * x
+            img = 1.0
+        else:
+            g = np.meshgrid(*[np.linspace(-1, 1, s) for s in ish], indexing="ij")
+            img = np.exp(-2 * sum(x ** 2 for x in g)) * np.exp(1j * rs.rand() * g[0])
+        ksp = sp.fft(mps * img, axes=axes)
+    if c["data"] == "weak0":
+        ksp = ksp.copy()
+        ksp[0] *= c["weak"]        # a very weak (not dead) first coil: |m0| ~ weak, still m0 != 0
+    return ksp.astype(c.get("dtype", "complex128")), mps
+
+
+def width(c, v):
+    """the integer `v` as the caller's integer type (Python int, or a signed numpy integer of the same value)"""
+    return getattr(np, c["wtype"])(v) if c.get("wtype") else v
+
+
+def check_invariants(ctx, case, maps, eig, kshape, crop, origin, tag="", TOL=TOL, eig_given=False):
+    """the per-voxel part of the property on one returned (maps, eigenvalues) pair"""
+    ok = True
+    eig = np.asarray(eig)
+    if eig.dtype.kind == "f":
+        eig = eig.astype(np.float64)        # exact: the comparison with `crop` below is the one of real numbers
+    maps = np.asarray(maps)
+    if maps.dtype == np.complex64:
+        maps = maps.astype(np.complex128)   # exact
+    if list(maps.shape) != list(kshape) or eig.size != int(np.prod(kshape[1:])):
+        ctx.fail("C17:shape" + tag, "maps / eigenvalues do not have the shape of ksp / of one coil", case,
+                 observed=[list(maps.shape), list(eig.shape)], expected=list(kshape), origin=origin)
+        return False
+    eig = eig.reshape(kshape[1:])
+    if np.isnan(maps).any() or np.isnan(eig).any():
+        ctx.fail("C17:nan" + tag, "NaN in maps / eigenvalues", case, observed=int(np.isnan(maps).sum()), expected=0, origin=origin)
+        return False
+    nrm = np.sqrt(np.sum(np.abs(maps) ** 2, axis=0))
+    zero = np.all(maps == 0, axis=0)
+    dev = np.where(zero, 0.0, np.abs(nrm - 1))
+    if dev.max() > TOL:
+        i = np.unravel_index(np.argmax(dev), dev.shape)
+        ctx.fail("C17:unit-norm" + tag, "a voxel's coil vector is neither unit-norm nor exactly zero", case,
+                 observed=dict(voxel=[int(v) for v in i], norm=float(nrm[i]), coil0=float(np.abs(maps[0][i]))),
+                 expected="1 +- %g or exactly 0" % TOL, origin=origin)
+        ok = False
+    want_zero = np.real(eig) <= crop
+    if not np.array_equal(zero, want_zero):
+        i = np.argwhere(zero != want_zero)[0]
+        tie = bool(np.real(eig)[tuple(i)] == crop)
+        ctx.fail("C17:crop" + (":tie" if tie else "") + tag, "maps are zero at a voxel iff eig <= crop is violated" +
+                 (" (eig == crop exactly: must be zero)" if tie else ""), case,
+                 observed=dict(voxel=i.tolist(), eig=float(np.real(eig)[tuple(i)]), crop=float(crop), zero=bool(zero[tuple(i)])),
+                 expected="zero exactly where eig <= crop", origin=origin)
+        ok = False
+    if np.max(np.abs(maps[0].imag)) > TOL or np.min(maps[0].real) < -TOL:
+        ctx.fail("C17:phase" + tag, "coil 0 is not real and non-negative", case,
+                 observed=dict(max_imag=float(np.max(np.abs(maps[0].imag))), min_real=float(np.min(maps[0].real))), expected="|imag| <= %g, real >= -%g" % (TOL, TOL),
+                 origin=origin)
+        ok = False
+    if eig_given:            # the eigenvalue map is part of the prescribed state, not computed by the code
+        return ok
+    if np.iscomplexobj(eig) and np.max(np.abs(np.imag(eig))) > TOL:
+        ctx.fail("C17:eig-real" + tag, "eigenvalues are not real", case, observed=float(np.max(np.abs(np.imag(eig)))), expected="real", origin=origin)
+        ok = False
+    if np.min(np.real(eig)) < -TOL or np.max(np.real(eig)) > 1 + TOL:
+        ctx.fail("C17:eig-range" + tag, "eigenvalues outside [0, 1]", case, observed=[float(np.min(np.real(eig))), float(np.max(np.real(eig)))],
+                 expected="[0, 1 + %g]" % TOL, origin=origin)
+        ok = False
+    return ok
 
 
 def check_espirit(ctx, c, origin):
@@ -373,60 +546,76 @@ def check_espirit(ctx, c, origin):
     ksp, mps_true = espirit_data(c)
     case = dict(c)
     try:
-        maps, eig = mr.app.EspiritCalib(ksp.copy(), calib_width=c["cw"], kernel_width=c["kw"], thresh=c["thresh"], crop=c["crop"],
-                                        max_iter=c["max_iter"], output_eigenvalue=True, show_pbar=False).run()
+        app = mr.app.EspiritCalib(ksp.copy(), calib_width=width(c, c["cw"]), kernel_width=width(c, c["kw"]), thresh=c["thresh"],
+                                  crop=c["crop"], max_iter=width(c, c["max_iter"]), output_eigenvalue=True, show_pbar=False)
+        maps, eig = app.run()
+        maps, eig = np.array(maps), np.array(eig)
     except Exception as e:  # noqa
-        ctx.fail("C17:raises", "EspiritCalib raised %s on a valid request" % type(e).__name__, case, observed=repr(e)[:300],
-                 expected="maps", origin=origin)
+        ctx.fail("C17:raises" + (":numpy-integer-width" if c.get("wtype") else ""),
+                 "EspiritCalib raised %s on a valid request%s" % (type(e).__name__, " (calib_width / kernel_width / max_iter given as numpy.%s)" % c["wtype"] if c.get("wtype") else ""),
+                 case, observed=repr(e)[:300], expected="maps", origin=origin)
         return False
-    ok = True
-    eig = np.asarray(eig)
-    if list(maps.shape) != list(ksp.shape) or eig.size != int(np.prod(ksp.shape[1:])):
-        ctx.fail("C17:shape", "maps / eigenvalues do not have the shape of ksp / of one coil", case,
-                 observed=[list(maps.shape), list(eig.shape)], expected=list(ksp.shape), origin=origin)
-        return False
-    eig = eig.reshape(ksp.shape[1:])
-    if c.get("crop_at") is not None and not c.get("_second"):
+    if not c.get("_second") and (c.get("crop_at") is not None or c.get("crop_rank") is not None):
         # second pass with the crop threshold set EXACTLY to one of the eigenvalue estimates (the computation is
-        # deterministic): that voxel has eig <= crop and must be exactly zero
-        c2 = dict(c, crop=float(np.real(eig).ravel()[c["crop_at"] % eig.size]), _second=True)
-        return check_espirit(ctx, c2, origin)
-    if list(maps.shape) != list(ksp.shape):
-        ctx.fail("C17:shape", "maps do not have the shape of ksp", case, observed=list(maps.shape), expected=list(ksp.shape), origin=origin)
-        return False
-    if np.isnan(maps).any() or np.isnan(eig).any():
-        ctx.fail("C17:nan", "NaN in maps / eigenvalues", case, observed=int(np.isnan(maps).sum()), expected=0, origin=origin)
-        return False
-    nrm = np.sqrt(np.sum(np.abs(maps) ** 2, axis=0))
-    zero = np.all(maps == 0, axis=0)
-    dev = np.where(zero, 0.0, np.abs(nrm - 1))
-    if dev.max() > TOL:
-        i = np.unravel_index(np.argmax(dev), dev.shape)
-        ctx.fail("C17:unit-norm", "a voxel's coil vector is neither unit-norm nor exactly zero", case,
-                 observed=dict(voxel=[int(v) for v in i], norm=float(nrm[i])), expected="1 +- 1e-6 or exactly 0", origin=origin)
-        ok = False
-    want_zero = np.real(eig) <= c["crop"]
-    if not np.array_equal(zero, want_zero):
-        i = np.argwhere(zero != want_zero)[0]
-        ctx.fail("C17:crop", "maps are zero at a voxel iff eig <= crop is violated", case,
-                 observed=dict(voxel=i.tolist(), eig=float(np.real(eig)[tuple(i)]), zero=bool(zero[tuple(i)])), expected="zero exactly where eig <= crop",
-                 origin=origin)
-        ok = False
-    if np.max(np.abs(maps[0].imag)) > TOL or np.min(maps[0].real) < -TOL:
-        ctx.fail("C17:phase", "coil 0 is not real and non-negative", case,
-                 observed=dict(max_imag=float(np.max(np.abs(maps[0].imag))), min_real=float(np.min(maps[0].real))), expected="|imag| <= 1e-6, real >= -1e-6",
-                 origin=origin)
-        ok = False
-    if np.iscomplexobj(eig) and np.max(np.abs(np.imag(eig))) > TOL:
-        ctx.fail("C17:eig-real", "eigenvalues are not real", case, observed=float(np.max(np.abs(np.imag(eig)))), expected="real", origin=origin)
-        ok = False
-    if np.min(np.real(eig)) < -TOL or np.max(np.real(eig)) > 1 + TOL:
-        ctx.fail("C17:eig-range", "eigenvalues outside [0, 1]", case, observed=[float(np.min(np.real(eig))), float(np.max(np.real(eig)))],
-                 expected="[0, 1 + 1e-6]", origin=origin)
-        ok = False
+        # deterministic): every voxel that attains it has eig <= crop and must be exactly zero, every voxel above is kept
+        ev = np.real(np.asarray(eig)).ravel()
+        if ev.size and not np.isnan(ev).any():
+            if c.get("crop_at") is not None:
+                cv = float(ev[c["crop_at"] % ev.size])
+            else:
+                cv = float(np.sort(ev)[int(round(c["crop_rank"] * (ev.size - 1)))])
+            return check_espirit(ctx, dict(c, crop=cv, _second=True), origin)
+    ok = check_invariants(ctx, case, maps, eig, ksp.shape, c["crop"], origin, TOL=TOLS[c.get("dtype", "complex128")])
+    if ok and c.get("rerun"):
+        with np.errstate(all="ignore"):
+            maps2, eig2 = app.run()
+        if np.isnan(maps2).any() and not np.isnan(eig2).any():
+            ctx.fail("C17:rerun:nan-at-cropped-voxels", "a second run() of the same EspiritCalib returns NaN maps (at the voxels the first run cropped to 0)",
+                     case, observed=dict(nan=int(np.isnan(maps2).sum()), cropped_first=int(np.all(maps == 0, axis=0).sum())),
+                     expected="unit-norm or exactly zero", origin=origin)
+            return False
+        ok = check_invariants(ctx, case, np.array(maps2), np.array(eig2), ksp.shape, c["crop"], origin, tag=":rerun", TOL=TOLS[c.get("dtype", "complex128")])
     return ok
 
 
+# ---- _output on a prescribed power-iteration state (unit vector field + eigenvalue map) ---------------
+def gen_output_state(rng):
+    nc = rng.randint(2, 8)
+    m0abs = rng.choice([0.5, 1e-2, 1e-4, 1e-7, 1e-10, 1e-12, 1e-14])
+    crop = rng.choice([0.0, 0.5, 0.95, 1.0, rng.random()])
+    eig = crop if rng.random() < 0.4 else rng.choice([0.0, 0.3, 0.96, 1.0, rng.random()])
+    return dict(kind="output-state", nc=nc, m0abs=m0abs, m0arg=rng.uniform(-3.2, 3.2), crop=crop, eig=eig, seed=rng.randrange(1 << 30))
+
+
+def output_state_vector(c):
+    if "m" in c:                       # explicit vector (a replayed correspondence case), normalised in float
+        m = np.array([complex(a, b) for a, b in c["m"]])
+        return m / np.sqrt(np.sum(np.abs(m) ** 2))
+    rs = np.random.RandomState(c["seed"])
+    rest = rs.randn(c["nc"] - 1) + 1j * rs.randn(c["nc"] - 1)
+    rest *= np.sqrt(1 - c["m0abs"] ** 2) / np.sqrt(np.sum(np.abs(rest) ** 2))
+    return np.concatenate([[c["m0abs"] * np.exp(1j * c["m0arg"])], rest])
+
+
+def check_output_state(ctx, c, origin):
+    """`_output()` of a real app whose power-iteration state (public attributes `mps`, `alg.max_eig`) is a prescribed
+    UNIT vector (m0 != 0, possibly tiny) and eigenvalue: the result must be unit-norm with coil 0 real >= 0 when
+    eig > crop and exactly zero when eig <= crop."""
+    m = output_state_vector(c)
+    nc = len(m)
+    try:
+        app = make_app(nc, [3, 3], crop=float(c["crop"]), output_eigenvalue=True)
+        app.mps[...] = m.reshape(1, 1, nc, 1)
+        app.alg.max_eig = np.full((3, 3, 1, 1), float(c["eig"]))
+        mo, eo = app._output()
+        mo, eo = np.array(mo), np.array(eo)
+    except Exception as e:  # noqa  (the attributes this oracle sets are not there any more: not a verdict)
+        ctx.count("oracle:output-state:inconclusive")
+        return True
+    return check_invariants(ctx, dict(c), mo, eo, (nc, 3, 3), float(c["crop"]), origin, tag=":output-state", eig_given=True)
+
+
+# ---- recovery, alone and in histories of several live apps ----------------------------------------------
 def gen_recovery(rng):
     d2 = rng.random() < 0.85
     nc = rng.randint(4, 8)
@@ -434,38 +623,144 @@ def gen_recovery(rng):
     return dict(kind="recovery", nc=nc if d2 else 8, ish=ish, cw=12 if d2 else 10, kw=4 if d2 else 3)
 
 
+def smooth_maps(nc, ish, v):
+    """a smooth rss-normalised coil array: birdcage coils renumbered (reversed / rotated) and mirrored"""
+    from sigpy.mri import sim
+    mps = sim.birdcage_maps([nc] + list(ish))      # already rss-normalised
+    if v.get("rev"):
+        mps = mps[::-1]
+    mps = np.roll(mps, v.get("roll", 0), axis=0)
+    for ax in v.get("flip", []):
+        mps = np.flip(mps, axis=1 + ax)
+    return np.ascontiguousarray(mps)
+
+
+def recovery_error(mps, rec):
+    sl = (slice(None),) + tuple(slice(4, -4) for _ in mps.shape[1:])
+    err = np.abs(np.abs(mps)[sl] - np.abs(rec)[sl])
+    tol = 1e-2 + 1e-2 * np.abs(rec)[sl]
+    return float(np.max(err / tol))
+
+
 def check_recovery(ctx, c, origin):
     """fully sampled k-space of smooth (birdcage) maps: |maps| agree with the rss-normalised truth in the interior"""
     import sigpy as sp
     import sigpy.mri as mr
-    from sigpy.mri import sim
     ish = c["ish"]
-    mps = sim.birdcage_maps([c["nc"]] + ish)      # already rss-normalised
+    mps = smooth_maps(c["nc"], ish, c.get("variant", {}))
     ksp = sp.fft(mps, axes=list(range(-len(ish), 0)))
     rec = mr.app.EspiritCalib(ksp, calib_width=c["cw"], kernel_width=c["kw"], show_pbar=False).run()
-    sl = (slice(None),) + tuple(slice(4, -4) for _ in ish)
-    err = np.abs(np.abs(mps)[sl] - np.abs(rec)[sl])
-    tol = 1e-2 + 1e-2 * np.abs(rec)[sl]
-    if not np.all(err <= tol):
+    r = recovery_error(mps, rec)
+    if not r <= 1:
         ctx.fail("C17:recovery", "recovered map magnitudes differ from the true rss-normalised maps in the interior", dict(c),
-                 observed=float(np.max(err / tol)), expected="<= 1 (rtol = atol = 1e-2, as tests/mri/test_app.py)", origin=origin)
+                 observed=r, expected="<= 1 (rtol = atol = 1e-2, as tests/mri/test_app.py)", origin=origin)
         return False
     return True
 
 
+def gen_history(rng):
+    """several EspiritCalib apps of the same shape alive at once: all constructed first, then run in another order
+    (an earlier-constructed app runs after a later construction), some run a second time"""
+    nc = rng.randint(4, 8)
+    ish = [rng.randint(12, 16), rng.randint(12, 16)]
+    n = rng.choice([2, 2, 3])
+    vs = []
+    while len(vs) < n:
+        v = dict(rev=rng.random() < 0.5, roll=rng.randrange(nc), flip=[a for a in (0, 1) if rng.random() < 0.3])
+        if v not in vs:
+            vs.append(v)
+    order = list(range(n))
+    k = rng.random()
+    if k < 0.4:
+        pass                       # run in construction order: app 0 runs after app 1.. were constructed
+    elif k < 0.7:
+        order.reverse()
+    else:
+        rng.shuffle(order)
+    if rng.random() < 0.4:
+        order.append(rng.choice(order))         # re-run of an app that has already run
+    return dict(kind="history", nc=nc, ish=ish, cw=12, kw=4, crop=rng.choice([0.95, 0.95, 0.9, 0.99]), apps=vs, order=order)
+
+
+def check_history(ctx, c, origin):
+    import sigpy as sp
+    import sigpy.mri as mr
+    ish = c["ish"]
+    truth = [smooth_maps(c["nc"], ish, v) for v in c["apps"]]
+    ksps = [sp.fft(m, axes=list(range(-len(ish), 0))) for m in truth]
+    apps = [mr.app.EspiritCalib(k, calib_width=c["cw"], kernel_width=c["kw"], crop=c["crop"], output_eigenvalue=True, show_pbar=False)
+            for k in ksps]
+    ok, ran = True, set()
+    for step, a in enumerate(c["order"]):
+        rerun = a in ran
+        ran.add(a)
+        case = dict(c, failing_step=step, failing_app=a)
+        with np.errstate(all="ignore"):
+            maps, eig = apps[a].run()
+        maps, eig = np.array(maps), np.array(eig)
+        if rerun and np.isnan(maps).any():
+            ctx.fail("C17:rerun:nan-at-cropped-voxels", "a second run() of the same EspiritCalib returns NaN maps (at the voxels the first run cropped to 0)",
+                     case, observed=dict(nan=int(np.isnan(maps).sum()), cropped_first=int(np.isnan(maps[0]).sum())), expected="unit-norm or exactly zero", origin=origin)
+            ok = False
+            continue
+        ok = check_invariants(ctx, case, maps, eig, ksps[a].shape, c["crop"], origin, tag=":history") and ok
+        if np.isnan(maps).any():
+            continue
+        r = recovery_error(truth[a], maps)
+        if not r <= 1:
+            others = {b: recovery_error(truth[b], maps) for b in range(len(apps)) if b != a}
+            ctx.fail("C17:recovery:history", "with several EspiritCalib apps alive (all constructed, then run), an app's maps do not agree with the "
+                     "true maps of ITS OWN k-space in the interior", case,
+                     observed=dict(own=r, against_other_apps_truth=others), expected="<= 1 (rtol = atol = 1e-2) against the app's own data", origin=origin)
+            ok = False
+    return ok
+
+
 def search(ctx, budget):
     rng = ctx.rng
+    # 1. the correspondence disagreements first, as inputs of the property oracle on the real code
+    for dg in ctx.disagreements[:40]:
+        cs = dg.get("case") or {}
+        try:
+            if cs.get("kind") == "post" and cs.get("line", "").startswith("C17 output "):
+                kv = dict(t.split("=", 1) for t in cs["line"].split()[2:])
+                m = [[float(Fraction(p)) for p in (z.split(";") + ["0"])[:2]] for z in kv["m"].split(",")]
+                c = dict(kind="output-state", m=m, eig=float(Fraction(kv["eig"])), crop=float(Fraction(kv["crop"])))
+                ctx.case(("oracle-state", json.dumps(c, sort_keys=True)))
+                check_output_state(ctx, c, "correspondence")
+            elif cs.get("kind") == "hyp":
+                c = dict(kind="invariants", nc=cs["nc"], ish=cs["ish"], cw=cs["cw"], kw=max(cs["kw"], 1), thresh=cs["thresh"], crop=0.0, max_iter=30,
+                         data="random", seed=1, crop_at=None)
+                check_espirit(ctx, c, "correspondence")
+        except Exception:  # noqa
+            ctx.count("oracle:replay-inconclusive")
+    # 2. histories: several apps alive, run in another order, re-run (each must recover ITS OWN maps)
+    for i in range(int(8 * budget)):
+        c = gen_history(rng)
+        ctx.case(("oracle-history", json.dumps(c, sort_keys=True)))
+        ctx.count("oracle:history:%dapps%s" % (len(c["apps"]), ":rerun" if len(set(c["order"])) < len(c["order"]) else ""))
+        check_history(ctx, c, "search")
+    # 3. _output on prescribed unit states (tiny first coil, eig == crop ties)
+    for i in range(int(60 * budget)):
+        c = gen_output_state(rng)
+        ctx.case(("oracle-state", json.dumps(c, sort_keys=True)))
+        ctx.count("oracle:output-state:%s" % ("tie" if c["eig"] == c["crop"] else "weak0" if c["m0abs"] < 1e-6 else "plain"))
+        check_output_state(ctx, c, "search")
+    # 4. per-voxel invariants end to end
     n = int(150 * budget)
     for _ in range(n):
         c = gen_espirit(rng, budget)
         ctx.case(("oracle", json.dumps(c, sort_keys=True)))
-        ctx.count("oracle:%s:%dd" % (c["data"], len(c["ish"])))
+        ctx.count("oracle:%s:%dd%s%s" % (c["data"], len(c["ish"]), ":npint" if c.get("wtype") else "", ":c64" if c.get("dtype") else ""))
         check_espirit(ctx, c, "search")
     for i in range(int(12 * budget)):
         c = gen_recovery(rng)
         ctx.case(("oracle-recovery", json.dumps(c, sort_keys=True)))
         ctx.count("oracle:recovery:%dd" % len(c["ish"]))
         check_recovery(ctx, c, "search")
+
+
+CHECKERS = {"recovery": check_recovery, "history": check_history, "output-state": check_output_state}
 
 
 def replay(path):
@@ -475,7 +770,7 @@ def replay(path):
         return 0
     c = r["case"]
     ctx = common.Ctx(PROPERTY, "quick", 0)
-    ok = check_recovery(ctx, c, "replay") if c.get("kind") == "recovery" else check_espirit(ctx, c, "replay")
+    ok = CHECKERS.get(c.get("kind"), check_espirit)(ctx, c, "replay")
     for f in ctx.failures[:5]:
         print("  failure:", f["key"], f["what"], f["observed"])
     print("replay:", "property holds on this input" if ok else "property FAILS on this input")
